@@ -18,7 +18,21 @@
      "plain"  sorted(l)                      elements [key, tag] (list order)
      "key"    sorted(l, key=fn(x) x[0])      elements [key, tag]
      "keyrev" sorted(l, cmp=fn(a, b) compare(b, a), key=fn(x) x[0])
-     "numkey" sorted(l, key=fn(x) [type(x), x])   elements 1, 1.0, 2, 0.5       *)
+     "numkey" sorted(l, key=fn(x) [type(x), x])   elements 1, 1.0, 2, 0.5
+     "num3"   sorted(l, cmp=fn(a, b) 3 * compare(a, b))      a cmp may answer any
+     "numsub" sorted(l, cmp=fn(a, b) a - b)                  negative / positive number
+
+   and the scan of `min` / `max` over a list (modules/core.ckl):
+
+       min_item = a[0]; min_val = key(min_item)               (Init)
+       for item in a:
+           val = key(item)
+           if val < min_val: min_val = val; min_item = item   ScanTake / ScanSkip
+       return min_item                                        ScanEnd
+
+     "min" "max"        min(l) / max(l)                  elements 1, 1.0, 2, 0.5
+     "minkey" "maxkey"  min(l, key=fn(x) x[0]) / max     elements [key, tag]
+   with the property: the result is an element no other element is below (above). *)
 EXTENDS Val, TLC, Json, IOUtils
 
 CONSTANTS MaxN,       \* longest input list
@@ -29,8 +43,11 @@ CONSTANTS MaxN,       \* longest input list
 TagStr(t) == VStr(<<96 + t>>)                      \* 'a', 'b', ...
 Tagged == {VList(<<VInt(k), TagStr(t)>>) : k \in 1..NKeys, t \in 1..NTags}
 Nums   == {VInt(1), VDec(1, 1), VInt(2), VDec(1, 2)}
-Modes  == {"num", "numkey", "plain", "key", "keyrev"}
-Pool(m) == IF m \in {"num", "numkey"} THEN Nums ELSE Tagged
+SortModes == {"num", "numkey", "num3", "numsub", "plain", "key", "keyrev"}
+ScanModes == {"min", "max", "minkey", "maxkey"}
+Modes  == SortModes \cup ScanModes
+NumModes == {"num", "numkey", "num3", "numsub", "min", "max"}
+Pool(m) == IF m \in NumModes THEN Nums ELSE Tagged
 \* type(x) as a string value: 'int' / 'decimal'
 TypeStr(x) == IF x.k = "int" THEN VStr(<<105, 110, 116>>) ELSE VStr(<<100, 101, 99, 105, 109, 97, 108>>)
 
@@ -38,17 +55,25 @@ Seqs(S, n) == UNION {[1..m -> S] : m \in 0..n}
 
 \* "numkey": sorted(l, key = fn(x) [type(x), x]) - a key that tells the Equal
 \* elements 1 and 1.0 apart (each element must get its own key)
-KeyOf(m, x)  == IF m \in {"key", "keyrev"} THEN x.items[1]
+KeyOf(m, x)  == IF m \in {"key", "keyrev", "minkey", "maxkey"} THEN x.items[1]
                 ELSE IF m = "numkey" THEN VList(<<TypeStr(x), x>>) ELSE x
-\* cmp(a, b) as called by the loop; the default is `compare`
-Cmp(m, x, y) == IF m = "keyrev" THEN Compare(y, x) ELSE Compare(x, y)
+\* cmp(a, b) as called by the loop; the default is `compare`.  The loop asks only
+\* whether the answer is negative: 3 * compare(a, b) and a - b (whose sign is
+\* that of compare(a, b)) must sort like compare
+Cmp(m, x, y) == IF m = "keyrev" THEN Compare(y, x)
+                ELSE IF m = "num3" THEN 3 * Compare(x, y) ELSE Compare(x, y)
+\* the test of the scan: is x a better candidate than the one held
+Better(m, x, y) == IF m \in {"min", "minkey"} THEN Less(x, y) ELSE Less(y, x)
 
 VARIABLES mode, inp, res, i, j, v, pc
 vars == <<mode, inp, res, i, j, v, pc>>
 
-Init == /\ mode \in Modes
-        /\ inp \in Seqs(Pool(mode), MaxN)
-        /\ res = inp /\ i = 1 /\ j = 0 /\ v = VNull /\ pc = "outer"
+Init == \/ /\ mode \in SortModes
+           /\ inp \in Seqs(Pool(mode), MaxN)
+           /\ res = inp /\ i = 1 /\ j = 0 /\ v = VNull /\ pc = "outer"
+        \/ /\ mode \in ScanModes                          \* j: the candidate's position, v: its key
+           /\ inp \in Seqs(Pool(mode), MaxN) /\ inp # << >>
+           /\ res = inp /\ i = 1 /\ j = 1 /\ v = KeyOf(mode, inp[1]) /\ pc = "scan"
 
 \* every action reports that it was taken (counted by the harness: TLC's own
 \* -coverage instruments every operator of Val.tla and costs more than the run)
@@ -74,7 +99,22 @@ InnerBreak == /\ pc = "inner"
               /\ UNCHANGED <<mode, inp, res, j, v>>
               /\ Act("InnerBreak")
 
-Next == OuterBegin \/ OuterEnd \/ InnerSwap \/ InnerBreak
+ScanTake == /\ pc = "scan" /\ i <= Len(res)
+            /\ Better(mode, KeyOf(mode, res[i]), v)
+            /\ j' = i /\ v' = KeyOf(mode, res[i]) /\ i' = i + 1
+            /\ UNCHANGED <<mode, inp, res, pc>>
+            /\ Act("ScanTake")
+ScanSkip == /\ pc = "scan" /\ i <= Len(res)
+            /\ ~Better(mode, KeyOf(mode, res[i]), v)
+            /\ i' = i + 1
+            /\ UNCHANGED <<mode, inp, res, j, v, pc>>
+            /\ Act("ScanSkip")
+ScanEnd  == /\ pc = "scan" /\ i > Len(res)
+            /\ pc' = "done"
+            /\ UNCHANGED <<mode, inp, res, i, j, v>>
+            /\ Act("ScanEnd")
+
+Next == OuterBegin \/ OuterEnd \/ InnerSwap \/ InnerBreak \/ ScanTake \/ ScanSkip \/ ScanEnd
 Spec == Init /\ [][Next]_vars
 
 -----------------------------------------------------------------------------
@@ -90,23 +130,44 @@ IsStableSort(m, in_, out) ==
             k < l => LET c == Cmp(m, KeyOf(m, out[k]), KeyOf(m, out[l])) IN
                      c < 0 \/ (c = 0 /\ p[k] < p[l])
 
-TypeOK == /\ mode \in Modes /\ pc \in {"outer", "inner", "done"}
+TypeOK == /\ mode \in Modes /\ pc \in {"outer", "inner", "scan", "done"}
           /\ i \in 1..(MaxN + 1) /\ j \in 0..MaxN
 
-Final == pc = "done" => IsStableSort(mode, inp, res)
+Final == pc = "done" /\ mode \in SortModes => IsStableSort(mode, inp, res)
+
+\* min / max: the element returned is one no other element is below (above) -
+\* the property - and, as the scan replaces its candidate only by a strictly
+\* better one, the first such element
+Keys(m, s) == [k \in DOMAIN s |-> KeyOf(m, s[k])]
+ScanFinal ==
+  pc = "done" /\ mode \in ScanModes =>
+    /\ res = inp
+    /\ IF mode \in {"min", "minkey"}
+       THEN IsLeastAt(Keys(mode, inp), j) /\ j = FirstLeast(Keys(mode, inp))
+       ELSE IsGreatestAt(Keys(mode, inp), j) /\ j = FirstGreatest(Keys(mode, inp))
+\* loop invariant of the scan: the candidate is the first best of what was seen
+ScanBest ==
+  pc = "scan" =>
+    LET seen == SubSeq(inp, 1, IF i > 1 THEN i - 1 ELSE 1) IN
+    /\ v = KeyOf(mode, inp[j])
+    /\ j = IF mode \in {"min", "minkey"} THEN FirstLeast(Keys(mode, seen))
+                                         ELSE FirstGreatest(Keys(mode, seen))
 
 \* loop invariant: between outer iterations the first i-1 positions hold the
 \* stably sorted first i-1 inputs and the rest is untouched
 PrefixSorted ==
-  pc = "outer" =>
+  pc = "outer" /\ mode \in SortModes =>
     /\ IsStableSort(mode, SubSeq(inp, 1, i - 1), SubSeq(res, 1, i - 1))
     /\ SubSeq(res, i, Len(res)) = SubSeq(inp, i, Len(inp))
 
 \* sorted does not need cmp to be called on anything but keys of the input
 Emit(tag, rec) == IF Export THEN PrintT("@@" \o tag \o "@@" \o ToJson(rec)) ELSE TRUE
 Cmpct(m, s) == [k \in 1..Len(s) |->
-                 IF m \in {"num", "numkey"} THEN <<s[k].n[1], s[k].n[2], IF s[k].k = "int" THEN 0 ELSE 1>>
+                 IF m \in NumModes THEN <<s[k].n[1], s[k].n[2], IF s[k].k = "int" THEN 0 ELSE 1>>
                  ELSE <<s[k].items[1].n[1], s[k].items[2].s[1] - 96>>]
-ExportFinal == pc = "done" => Emit("SORT", [m |-> mode, inp |-> Cmpct(mode, inp), out |-> Cmpct(mode, res)])
+ExportFinal == pc = "done" /\ mode \in SortModes =>
+                 Emit("SORT", [m |-> mode, inp |-> Cmpct(mode, inp), out |-> Cmpct(mode, res)])
+ExportScan  == pc = "done" /\ mode \in ScanModes =>
+                 Emit("MINMAX", [m |-> mode, inp |-> Cmpct(mode, inp), which |-> j])
 
 =============================================================================
